@@ -207,7 +207,8 @@ Lemma bigmachine_task_spec w wt rw rd t l w1 r :
   r = Ok tt /\ wf w1 /\ shape w w1 /\
   (forall m, (m < wreg w)%nat -> peek w1 t m = wrap (sum_incs m l)) /\
   (forall k m, k <> wt -> k <> rw -> k <> rd -> k <> t ->
-               slot_of w1 k m = slot_of w k m /\ peek w1 k m = peek w k m).
+               slot_of w1 k m = slot_of w k m /\ peek w1 k m = peek w k m) /\
+  (forall m, peek w1 wt m = wrap (sum_incs m l)).      (* the worker keeps the task's scope *)
 Proof.
   intros W Hwt Hrw Hrd Ht N1 N2 N3 N4 N5 N6 Fresh Ck B. unfold bigmachine_task in B.
   (* the user functions on the worker *)
@@ -246,6 +247,11 @@ Proof.
     + rewrite (peek_ext wd w1 k m (O1 k m K4) H1), D2.
       rewrite (peek_ext wb wc k m (Sc k m) Hc).
       rewrite (peek_ext wa wb k m (Ob k m K2) Hb). exact A2.
+  - intro m.
+    rewrite (peek_ext wd w1 wt m (O1 wt m N3) H1), (proj2 (Od wt m N2)).
+    rewrite (peek_ext wb wc wt m (Sc wt m) Hc).
+    rewrite (peek_ext wa wb wt m (Ob wt m N1) Hb).
+    rewrite Pa, (peek_none _ _ _ (Fresh m)). reflexivity.
 Qed.
 
 (* ---------------- failure-free run on the bigmachine executor ---------------- *)
@@ -273,7 +279,7 @@ Proof.
                 ltac:(lia) ltac:(lia) ltac:(lia) ltac:(lia)
                 ltac:(lia) ltac:(lia) ltac:(lia) ltac:(lia) ltac:(lia) ltac:(lia)
                 Fr0 (Ck l (or_introl eq_refl)) B)
-      as (-> & Wa & Sha & Pa & Fa).
+      as (-> & Wa & Sha & Pa & Fa & _).
     assert (Hka : (4 * (S k + length tasks) < plen wa)%nat) by (destruct Sha as (_ & P & _); lia).
     assert (Fra : forall j m, (4 * S k < j)%nat -> slot_of wa j m = None).
     { intros j m Hj. rewrite (proj1 (Fa j m ltac:(lia) ltac:(lia) ltac:(lia) ltac:(lia))).
@@ -474,7 +480,8 @@ Lemma bigmachine_run_step (wr : bool) w wt rw rd t l w1 r :
   r = Ok tt /\ wf w1 /\ shape w w1 /\
   (forall m, (m < wreg w)%nat -> peek w1 t m = wrap (sum_incs m l)) /\
   (forall k m, k <> wt -> k <> rw -> k <> rd -> k <> t ->
-               slot_of w1 k m = slot_of w k m /\ peek w1 k m = peek w k m).
+               slot_of w1 k m = slot_of w k m /\ peek w1 k m = peek w k m) /\
+  (forall m, peek w1 wt m = wrap (sum_incs m l)).
 Proof.
   intros W Hwt Hrw Hrd Ht N1 N2 N3 N4 N5 N6 Fr Ck B.
   destruct (reset_nil_frame w rw W Hrw) as (Wa & Sha & _ & Fa).
@@ -501,7 +508,7 @@ Proof.
   assert (Ckc : counters_ok (wreg wc) l) by (destruct Shc as (R' & _); rewrite R'; exact Ck).
   destruct (bigmachine_task_spec wc wt rw rd t l w1 r Wc
               (shape_plen _ _ _ Shc Hwt) (shape_plen _ _ _ Shc Hrw) (shape_plen _ _ _ Shc Hrd)
-              (shape_plen _ _ _ Shc Ht) N1 N2 N3 N4 N5 N6 Sc Ckc B) as (-> & W1 & Sh1 & P1 & F1).
+              (shape_plen _ _ _ Shc Ht) N1 N2 N3 N4 N5 N6 Sc Ckc B) as (-> & W1 & Sh1 & P1 & F1 & Q1).
   splits; auto.
   - eapply shape_trans; eauto.
   - intros m Hm. apply P1. destruct Shc as (R' & _). lia.
@@ -518,7 +525,8 @@ Lemma bigmachine_runs_spec (wr : bool) : forall runs w wt rw rd t w1 r,
   r = Ok tt /\ wf w1 /\ shape w w1 /\
   (forall m, (m < wreg w)%nat -> peek w1 t m = after_runs (peek w t m) m runs) /\
   (forall k m, k <> wt -> k <> rw -> k <> rd -> k <> t ->
-               slot_of w1 k m = slot_of w k m /\ peek w1 k m = peek w k m).
+               slot_of w1 k m = slot_of w k m /\ peek w1 k m = peek w k m) /\
+  (forall m, peek w1 wt m = after_runs (peek w wt m) m runs).
 Proof.
   induction runs as [|l runs IH]; intros w wt rw rd t w1 r W Hwt Hrw Hrd Ht N1 N2 N3 N4 N5 N6 Cond Ck B.
   - simpl in B. inversion B; subst. splits; auto using shape_refl.
@@ -532,19 +540,20 @@ Proof.
     assert (Fr : wr = true \/ forall m, slot_of w wt m = None).
     { destruct Cond as [C|(C & _)]; auto. }
     destruct (bigmachine_run_step wr w wt rw rd t l wa ra W Hwt Hrw Hrd Ht N1 N2 N3 N4 N5 N6 Fr
-                (Ck l (or_introl eq_refl)) St) as (-> & Wa & Sha & Pa & Fa).
+                (Ck l (or_introl eq_refl)) St) as (-> & Wa & Sha & Pa & Fa & Qa).
     destruct Cond as [C|(C & Len)].
     + assert (Cka : runs_ok (wreg wa) runs).
       { intros l' Hin. destruct Sha as (R' & _). rewrite R'. apply Ck. right. exact Hin. }
       destruct (IH wa wt rw rd t w1 r Wa (shape_plen _ _ _ Sha Hwt) (shape_plen _ _ _ Sha Hrw)
                   (shape_plen _ _ _ Sha Hrd) (shape_plen _ _ _ Sha Ht) N1 N2 N3 N4 N5 N6 (or_introl C) Cka B)
-        as (-> & W1 & Sh1 & P1 & F1).
+        as (-> & W1 & Sh1 & P1 & F1 & Q1).
       splits; auto.
       * eapply shape_trans; eauto.
       * intros m Hm. rewrite P1 by (destruct Sha as (R' & _); lia). rewrite (Pa m Hm).
         symmetry. apply after_runs_cons.
       * intros k m K1 K2 K3 K4. destruct (F1 k m K1 K2 K3 K4) as (A & B'). destruct (Fa k m K1 K2 K3 K4) as (C' & D).
         split; congruence.
+      * intro m. rewrite Q1, Qa. symmetry. apply after_runs_cons.
     + destruct runs; [|simpl in Len; lia]. simpl in B. inversion B; subst. splits; auto.
 Qed.
 
@@ -574,7 +583,7 @@ Proof.
                 ltac:(lia) ltac:(lia) ltac:(lia) ltac:(lia)
                 ltac:(lia) ltac:(lia) ltac:(lia) ltac:(lia) ltac:(lia) ltac:(lia)
                 Cond0 (Ck runs (or_introl eq_refl)) B)
-      as (-> & Wa & Sha & Pa & Fa).
+      as (-> & Wa & Sha & Pa & Fa & _).
     assert (Hka : (4 * (S k + length tasks) < plen wa)%nat) by (destruct Sha as (_ & P & _); lia).
     assert (Fra : forall j m, (4 * S k < j)%nat -> slot_of wa j m = None).
     { intros j m Hj. rewrite (proj1 (Fa j m ltac:(lia) ltac:(lia) ltac:(lia) ltac:(lia))).
@@ -643,5 +652,210 @@ Theorem bigmachine_recompute_overcounts_refuted :
 Proof.
   exists [[[(1%nat, 21)]; [(1%nat, 21)]]]. split.
   - intros runs [<-|[]] l [<-|[<-|[]]] c n [E|[]]; inversion E; subst; lia.
+  - vm_compute. auto.
+Qed.
+
+(* ================= a task submitted again to the worker that still holds it ================= *)
+
+(* the worker answers from its completed task and fills the reply: the driver's task
+   scope ends with the values of the worker's task scope, which is not touched *)
+Lemma bigmachine_answer_spec w wt rw rd t w1 r :
+  wf w -> (wt < plen w)%nat -> (rw < plen w)%nat -> (rd < plen w)%nat -> (t < plen w)%nat ->
+  wt <> rw -> wt <> rd -> wt <> t -> rw <> rd -> rw <> t -> rd <> t ->
+  bigmachine_answer true w wt rw rd t = (w1, r) ->
+  r = Ok tt /\ wf w1 /\ shape w w1 /\
+  (forall m, (m < wreg w)%nat -> peek w1 t m = peek w wt m) /\
+  (forall k m, k <> rw -> k <> rd -> k <> t ->
+               slot_of w1 k m = slot_of w k m /\ peek w1 k m = peek w k m).
+Proof.
+  intros W Hwt Hrw Hrd Ht N1 N2 N3 N4 N5 N6 B. unfold bigmachine_answer in B.
+  destruct (reset_nil_frame w rw W Hrw) as (Wa & Sha & _ & Fa).
+  set (wa := reset_nil w rw) in *.
+  destruct (reset_nil_frame wa rd Wa (shape_plen _ _ _ Sha Hrd)) as (Wb0 & Shb0 & _ & Fb0).
+  set (w0 := reset_nil wa rd) in *.
+  assert (Sh0 := shape_trans _ _ _ Sha Shb0).
+  assert (F0 : forall k m, k <> rw -> k <> rd -> slot_of w0 k m = slot_of w k m /\ peek w0 k m = peek w k m).
+  { intros k m K1 K2. destruct (Fa k m K1) as (A1 & A2). destruct (Fb0 k m K2) as (B1 & B2). split; congruence. }
+  cbv zeta in B.
+  destruct (reset w0 rw wt) as [wb rb] eqn:R1.
+  destruct (reset_spec _ _ _ _ _ Wb0 (shape_plen _ _ _ Sh0 Hrw) (shape_plen _ _ _ Sh0 Hwt) R1)
+    as (-> & Wb & Shb & Hb & Sb & Ob).
+  assert (Shab := shape_trans _ _ _ Sh0 Shb).
+  destruct (encode wb rw) as [wc rc] eqn:E.
+  destruct (encode_spec _ _ _ _ Wb (shape_plen _ _ _ Shab Hrw) E)
+    as (pl & -> & Lpl & Ppl & Rpl & Wc & Shc & Hc & Sc).
+  assert (Shac := shape_trans _ _ _ Shab Shc).
+  destruct (decode wc rd pl) as [wd rd'] eqn:Dc.
+  assert (Lc : length pl = wreg wc) by (destruct Shc as (R' & _); lia).
+  destruct (decode_spec _ _ _ _ _ Wc (shape_plen _ _ _ Shac Hrd) Lc Rpl Dc)
+    as (-> & Wd & Shd & Pd & Od & _).
+  assert (Shad := shape_trans _ _ _ Shac Shd).
+  destruct (reset_spec _ _ _ _ _ Wd (shape_plen _ _ _ Shad Ht) (shape_plen _ _ _ Shad Hrd) B)
+    as (-> & W1 & Sh1 & H1 & S1 & O1).
+  splits; auto.
+  - eapply shape_trans; eauto.
+  - intros m Hm.
+    rewrite (peek_alias wd w1 t rd m (S1 m) H1).
+    rewrite Pd, Ppl by (destruct Shab as (R' & _); lia).
+    rewrite (peek_alias w0 wb rw wt m (Sb m) Hb).
+    apply (F0 wt m N1 N2).
+  - intros k m K2 K3 K4.
+    destruct (F0 k m K2 K3) as (A1 & A2). destruct (Od k m K3) as (D1 & D2).
+    split.
+    + rewrite (O1 k m K4), D1, Sc, (Ob k m K2). exact A1.
+    + rewrite (peek_ext wd w1 k m (O1 k m K4) H1), D2.
+      rewrite (peek_ext wb wc k m (Sc k m) Hc).
+      rewrite (peek_ext w0 wb k m (Ob k m K2) Hb). exact A2.
+Qed.
+
+Lemma bigmachine_answers_spec : forall n w wt rw rd t w1 r,
+  wf w -> (wt < plen w)%nat -> (rw < plen w)%nat -> (rd < plen w)%nat -> (t < plen w)%nat ->
+  wt <> rw -> wt <> rd -> wt <> t -> rw <> rd -> rw <> t -> rd <> t ->
+  (forall m, (m < wreg w)%nat -> peek w t m = peek w wt m) ->
+  bigmachine_answers true w wt rw rd t n = (w1, r) ->
+  r = Ok tt /\ wf w1 /\ shape w w1 /\
+  (forall m, (m < wreg w)%nat -> peek w1 t m = peek w wt m) /\
+  (forall k m, k <> wt -> k <> rw -> k <> rd -> k <> t ->
+               slot_of w1 k m = slot_of w k m /\ peek w1 k m = peek w k m).
+Proof.
+  induction n as [|n IH]; intros w wt rw rd t w1 r W Hwt Hrw Hrd Ht N1 N2 N3 N4 N5 N6 Eq B; simpl in B.
+  - inversion B; subst. splits; auto using shape_refl.
+  - destruct (bigmachine_answer true w wt rw rd t) as [wa ra] eqn:A.
+    destruct (bigmachine_answer_spec _ _ _ _ _ _ _ W Hwt Hrw Hrd Ht N1 N2 N3 N4 N5 N6 A)
+      as (-> & Wa & Sha & Pa & Fa).
+    assert (Eqa : forall m, (m < wreg wa)%nat -> peek wa t m = peek wa wt m).
+    { intros m Hm. destruct Sha as (R' & _). rewrite Pa by lia.
+      symmetry. apply (Fa wt m N1 N2 N3). }
+    destruct (IH wa wt rw rd t w1 r Wa (shape_plen _ _ _ Sha Hwt) (shape_plen _ _ _ Sha Hrw)
+                (shape_plen _ _ _ Sha Hrd) (shape_plen _ _ _ Sha Ht) N1 N2 N3 N4 N5 N6 Eqa B)
+      as (-> & W1 & Sh1 & P1 & F1).
+    splits; auto.
+    + eapply shape_trans; eauto.
+    + intros m Hm. rewrite P1 by (destruct Sha as (R' & _); lia). apply (Fa wt m N1 N2 N3).
+    + intros k m K1 K2 K3 K4. destruct (F1 k m K1 K2 K3 K4) as (A1 & A2). destruct (Fa k m K2 K3 K4) as (C & D).
+      split; congruence.
+Qed.
+
+Lemma bigmachine_task_resub_spec (wr : bool) w wt rw rd t ln w1 r :
+  wf w -> (wt < plen w)%nat -> (rw < plen w)%nat -> (rd < plen w)%nat -> (t < plen w)%nat ->
+  wt <> rw -> wt <> rd -> wt <> t -> rw <> rd -> rw <> t -> rd <> t ->
+  (forall m, slot_of w wt m = None) -> counters_ok (wreg w) (fst ln) ->
+  bigmachine_task_resub wr true w wt rw rd t ln = (w1, r) ->
+  r = Ok tt /\ wf w1 /\ shape w w1 /\
+  (forall m, (m < wreg w)%nat -> peek w1 t m = wrap (sum_incs m (fst ln))) /\
+  (forall k m, k <> wt -> k <> rw -> k <> rd -> k <> t ->
+               slot_of w1 k m = slot_of w k m /\ peek w1 k m = peek w k m).
+Proof.
+  intros W Hwt Hrw Hrd Ht N1 N2 N3 N4 N5 N6 Fresh Ck B. unfold bigmachine_task_resub in B.
+  destruct (bigmachine_runs wr w wt rw rd t [fst ln]) as [wa ra] eqn:R.
+  assert (Cond : wr = true \/ ((forall m, slot_of w wt m = None) /\ (length [fst ln] <= 1)%nat)).
+  { right. split; auto. }
+  assert (Ck' : runs_ok (wreg w) [fst ln]) by (intros l [<-|[]]; exact Ck).
+  destruct (bigmachine_runs_spec wr [fst ln] w wt rw rd t wa ra W Hwt Hrw Hrd Ht N1 N2 N3 N4 N5 N6 Cond Ck' R)
+    as (-> & Wa & Sha & Pa & Fa & Qa).
+  assert (Eqa : forall m, (m < wreg wa)%nat -> peek wa t m = peek wa wt m).
+  { intros m Hm. destruct Sha as (R' & _). rewrite Pa by lia. rewrite Qa. reflexivity. }
+  destruct (bigmachine_answers_spec (snd ln) wa wt rw rd t w1 r Wa (shape_plen _ _ _ Sha Hwt)
+              (shape_plen _ _ _ Sha Hrw) (shape_plen _ _ _ Sha Hrd) (shape_plen _ _ _ Sha Ht)
+              N1 N2 N3 N4 N5 N6 Eqa B) as (-> & W1 & Sh1 & P1 & F1).
+  splits; auto.
+  - eapply shape_trans; eauto.
+  - intros m Hm. rewrite P1 by (destruct Sha as (R' & _); lia). rewrite Qa. reflexivity.
+  - intros k m K1 K2 K3 K4. destruct (F1 k m K1 K2 K3 K4) as (A1 & A2). destruct (Fa k m K1 K2 K3 K4) as (C & D).
+    split; congruence.
+Qed.
+
+Lemma run_bigmachine_tasks_resub_spec (wr : bool) : forall tasks w k w1 r,
+  wf w -> (4 * (k + length tasks) < plen w)%nat ->
+  (forall j m, (4 * k < j)%nat -> slot_of w j m = None) ->
+  (forall ln, In ln tasks -> counters_ok (wreg w) (fst ln)) ->
+  run_bigmachine_tasks_resub wr true w k tasks = (w1, r) ->
+  r = Ok tt /\ wf w1 /\ shape w w1 /\
+  (forall n ln, nth_error tasks n = Some ln ->
+     forall m, (m < wreg w)%nat -> peek w1 (1 + 4 * (k + n)) m = wrap (sum_incs m (fst ln))) /\
+  (forall j m, (j <= 4 * k)%nat -> slot_of w1 j m = slot_of w j m /\ peek w1 j m = peek w j m).
+Proof.
+  induction tasks as [|ln tasks IH]; intros w k w1 r W Hk Fresh Ck R.
+  - simpl in R. inversion R; subst. splits; auto using shape_refl. intros [|n] l E; discriminate.
+  - simpl in Hk.
+    change (run_bigmachine_tasks_resub wr true w k (ln :: tasks)) with
+      (match bigmachine_task_resub wr true w (2 + 4 * k) (3 + 4 * k) (4 + 4 * k) (1 + 4 * k) ln with
+       | (w1, Ok _) => run_bigmachine_tasks_resub wr true w1 (S k) tasks
+       | (w1, Panic) => (w1, Panic)
+       end) in R.
+    destruct (bigmachine_task_resub wr true w (2 + 4 * k) (3 + 4 * k) (4 + 4 * k) (1 + 4 * k) ln) as [wa ra] eqn:B.
+    assert (Fr0 : forall m, slot_of w (2 + 4 * k)%nat m = None) by (intro m; apply Fresh; lia).
+    destruct (bigmachine_task_resub_spec wr w (2 + 4 * k)%nat (3 + 4 * k)%nat (4 + 4 * k)%nat (1 + 4 * k)%nat ln wa ra W
+                ltac:(lia) ltac:(lia) ltac:(lia) ltac:(lia)
+                ltac:(lia) ltac:(lia) ltac:(lia) ltac:(lia) ltac:(lia) ltac:(lia)
+                Fr0 (Ck ln (or_introl eq_refl)) B)
+      as (-> & Wa & Sha & Pa & Fa).
+    assert (Hka : (4 * (S k + length tasks) < plen wa)%nat) by (destruct Sha as (_ & P & _); lia).
+    assert (Fra : forall j m, (4 * S k < j)%nat -> slot_of wa j m = None).
+    { intros j m Hj. rewrite (proj1 (Fa j m ltac:(lia) ltac:(lia) ltac:(lia) ltac:(lia))).
+      apply Fresh. lia. }
+    assert (Cka : forall l', In l' tasks -> counters_ok (wreg wa) (fst l')).
+    { intros l' Hin. destruct Sha as (R' & _). rewrite R'. apply Ck. right. exact Hin. }
+    destruct (IH wa (S k) w1 r Wa Hka Fra Cka R) as (-> & W1 & Sh1 & P1 & F1).
+    splits; auto.
+    + eapply shape_trans; eauto.
+    + intros [|n] l' E m Hm; simpl in E.
+      * inversion E; subst l'.
+        rewrite (proj2 (F1 (1 + 4 * (k + 0))%nat m ltac:(lia))).
+        replace (1 + 4 * (k + 0))%nat with (1 + 4 * k)%nat by lia.
+        apply Pa. exact Hm.
+      * replace (1 + 4 * (k + S n))%nat with (1 + 4 * (S k + n))%nat by lia.
+        eapply P1; eauto. destruct Sha as (R' & _). lia.
+    + intros j m Hj.
+      destruct (F1 j m ltac:(lia)) as (A & B'). destruct (Fa j m ltac:(lia) ltac:(lia) ltac:(lia) ltac:(lia)) as (C & E).
+      split; congruence.
+Qed.
+
+(* however many times tasks are submitted again to the worker that still holds them, the
+   total is that of their one execution: the reply carries the completed task's scope *)
+Theorem result_total_after_resubmission_to_same_worker (wr : bool) reg tasks :
+  (forall ln, In ln tasks -> counters_ok reg (fst ln)) ->
+  exists w, run_bigmachine_resub wr true reg tasks = (w, Ok tt) /\ wf w /\
+  forall m, (m < reg)%nat -> peek w 0 m = wrap (sum_incs m (concat (map fst tasks))).
+Proof.
+  intro Ck. unfold run_bigmachine_resub.
+  set (n := length tasks). set (w0 := init reg (1 + 4 * n)).
+  assert (W0 : wf w0) by apply wf_init.
+  assert (P0 : plen w0 = (1 + 4 * n)%nat) by (unfold plen, w0, init; cbn [wpool]; apply repeat_length).
+  destruct (run_bigmachine_tasks_resub wr true w0 0 tasks) as [w1 r1] eqn:R.
+  destruct (run_bigmachine_tasks_resub_spec wr tasks w0 0 w1 r1 W0) as (-> & W1 & Sh1 & P1 & F1); auto.
+  { rewrite P0. unfold n. lia. }
+  { intros j m _. apply slot_init. }
+  assert (S0 : forall m, slot_of w1 0 m = None).
+  { intro m. rewrite (proj1 (F1 0%nat m ltac:(lia))). apply slot_init. }
+  destruct (merge_tasks w1 (map (fun k => (1 + 4 * k)%nat) (seq 0 n))) as [w2 r2] eqn:M.
+  destruct (merge_tasks_spec (map (fun k => (1 + 4 * k)%nat) (seq 0 n)) w1 w2 r2 W1) as (-> & W2 & Sh2 & P2); auto.
+  { destruct Sh1 as (_ & P & _). lia. }
+  { apply private_of_none. exact S0. }
+  { intros t Hin. apply in_map_iff in Hin. destruct Hin as (k & <- & Hin). apply in_seq in Hin.
+    destruct Sh1 as (_ & P & _). split; lia. }
+  exists w2. splits; auto.
+  intros m Hm. rewrite P2 by (destruct Sh1 as (R' & _); rewrite R'; exact Hm).
+  rewrite (peek_none _ _ _ (S0 m)), Z.add_0_l.
+  rewrite sum_incs_concat.
+  rewrite <- (wrap_zsum_wrap (map (sum_incs m) (map fst tasks))). f_equal. f_equal.
+  rewrite !map_map.
+  set (d := (@nil (nat * Z), 0%nat)).
+  rewrite <- (map_nth_seq tasks d). rewrite map_map. fold n.
+  apply map_ext_in. intros k Hin. apply in_seq in Hin.
+  replace (1 + 4 * k)%nat with (1 + 4 * (0 + k))%nat by lia.
+  apply (P1 k (nth k tasks d)); [apply nth_error_nth'; unfold n in Hin; lia|exact Hm].
+Qed.
+
+(* a worker whose early return leaves the reply empty: the driver's Reset(&reply.Scope)
+   wipes the task.  One task adding 21 to counter 1, submitted again once: 0 reported. *)
+Theorem resubmission_empty_reply_refuted :
+  exists tasks,
+    (forall ln, In ln tasks -> counters_ok 2 (fst ln)) /\
+    let '(w, r) := run_bigmachine_resub true false 2 tasks in
+    r = Ok tt /\ peek w 0 1 = 0 /\ wrap (sum_incs 1 (concat (map fst tasks))) = 21.
+Proof.
+  exists [([(1%nat, 21)], 1%nat)]. split.
+  - intros ln [<-|[]] c n [E|[]]; inversion E; subst; lia.
   - vm_compute. auto.
 Qed.
